@@ -8,3 +8,11 @@ def ipv6_ok(s):
         return True
     except (OSError, ValueError):
         return False
+
+
+def float_ok(s):
+    try:
+        float(s)
+        return True
+    except ValueError:
+        return False
